@@ -144,8 +144,10 @@ def main(ctx):
     stale_donor = None
     for i, (rel, path, flags) in enumerate(srcs):
         base = ctx.path("b", str(i), "x")[:-2]
-        mem = dict(tag="mem%d" % i, src=path, out=os.path.join(base, "mem.ttf"), flags=flags)
-        ir = dict(tag="ir%d" % i, src=path, out=os.path.join(base, "ir.ttf"), flags=flags,
+        sk = "skip_features" in flags
+        flags = [f for f in flags if f != "skip_features"]
+        mem = dict(tag="mem%d" % i, src=path, out=os.path.join(base, "mem.ttf"), flags=flags, skip_features=sk)
+        ir = dict(tag="ir%d" % i, src=path, out=os.path.join(base, "ir.ttf"), flags=flags, skip_features=sk,
                   ir_dir=os.path.join(base, "ir"), readback=True, trace=os.path.join(base, "ir.ndjson"))
         reqs += [mem, ir]
         meta.append((rel, path, flags, base))
@@ -201,6 +203,7 @@ def main(ctx):
             sdir = os.path.join(base, "stale")
             shutil.copytree(stale_donor[1], sdir)
             stale_reqs.append(dict(tag="stale%d" % i, src=path, out=os.path.join(base, "stale.ttf"), flags=flags,
+                                   skip_features=reqs[2 * i].get("skip_features", False),
                                    ir_dir=sdir, trace=os.path.join(base, "stale.ndjson")))
             stale_meta.append((rel, rm, base))
         if rel.startswith("glyphs3/WghtVar.glyphs") or stale_donor is None:
